@@ -11,7 +11,10 @@ let curve_of p a b gx gy n = { cp = arg_z p; ca = arg_z a; cb = arg_z b; cgx = a
 let opt_bytes t = if t = "N" then None else Some (arg_bytes t)
 let opt_z t = if t = "N" then None else Some (arg_z t)
 (* key tokens are consumed from the argument list *)
+let kind_of = function "p2pkh" -> AK_p2pkh | "p2pkh_wit" -> AK_p2pkh_wit | "other" -> AK_other | k -> failwith ("kind " ^ k)
 let take_key = function
+  | "A" :: k :: h :: r -> (KAddr (kind_of k, Some (arg_bytes h)), r)
+  | "AN" :: k :: r -> (KAddr (kind_of k, None), r)
   | "P" :: x :: y :: r -> (KPair (arg_z x, arg_z y), r)
   | "H" :: h :: r -> (KHash (Some (arg_bytes h)), r)
   | "HN" :: r -> (KHash None, r)
